@@ -101,7 +101,7 @@ func DecodeAudioSampleEntry(hdr BoxHeader, startPos uint64, r io.Reader) (Box, e
 
 	pos := startPos + nrAudioSampleBytesBeforeChildren // Size of all previous data
 	for {
-		box, err := DecodeBox(pos, restReader)
+		box, inputSize, err := decodeBoxAndInputSize(pos, restReader)
 		if err == io.EOF {
 			break
 		} else if err != nil {
@@ -109,7 +109,7 @@ func DecodeAudioSampleEntry(hdr BoxHeader, startPos uint64, r io.Reader) (Box, e
 		}
 		if box != nil {
 			a.AddChild(box)
-			pos += box.Size()
+			pos += inputSize // Size in the input (more than box.Size() when a 64-bit size field is not kept)
 		}
 		if pos == startPos+hdr.Size {
 			break
@@ -139,13 +139,13 @@ func DecodeAudioSampleEntrySR(hdr BoxHeader, startPos uint64, sr bits.SliceReade
 	pos := startPos + nrAudioSampleBytesBeforeChildren // Size of all previous data
 	lastPos := startPos + hdr.Size
 	for pos < lastPos {
-		box, err := DecodeBoxSR(pos, sr)
+		box, inputSize, err := decodeBoxSRAndInputSize(pos, sr)
 		if err != nil {
 			return nil, err
 		}
 		if box != nil {
 			a.AddChild(box)
-			pos += box.Size()
+			pos += inputSize // Size in the input (more than box.Size() when a 64-bit size field is not kept)
 		}
 	}
 	return a, sr.AccError()
